@@ -397,7 +397,7 @@ META = dict(
 )
 
 MANIFEST = dict(
-    text="For C16: the real peoe.equilibrate on small graphs with symbolic formal charges and an UNINTERPRETED electronegativity for charged atoms (so conservation of the formal-charge sum and independence of the atom order hold for any electronegativity model), 1-3 cycles and the default 6 on the pair; exhaustive table lemma for radii (every supported Sybyl type gets the documented, positive radius); the ligand branch of the real non_trivial on a symbolic complex: MOL2 parameters reach only the ligand's atoms, every ligand atom is written exactly once, other hetero groups and waters keep theirs; the whole real MOL2 path (read, formal charges, PEOE) on the repository's molecules with the atom records listed in six other orders (selector): same total, same formal charges, values move only between atoms of the same type and neighbourhood; ligand HETATM records with any alternate-location flags reach the model. Round 4: two copies of the ligand told apart by residue number or only by insertion code, three file layouts (END, a single MODEL/ENDMDL bracket without END, no closing record), ligand in its own or in the protein chain.",
+    text="For C16: the real peoe.equilibrate on small graphs with symbolic formal charges and an UNINTERPRETED electronegativity for charged atoms (so conservation of the formal-charge sum and independence of the atom order hold for any electronegativity model), 1-3 cycles and the default 6 on the pair; exhaustive table lemma for radii (every supported Sybyl type gets the documented, positive radius); the ligand branch of the real non_trivial on a symbolic complex: MOL2 parameters reach only the ligand's atoms, every ligand atom is written exactly once, other hetero groups and waters keep theirs; the whole real MOL2 path (read, formal charges, PEOE) on the repository's molecules with the atom records listed in six other orders (selector): same total, same formal charges, values move only between atoms of the same type and neighbourhood; ligand HETATM records with any alternate-location flags reach the model. Round 4: two copies of the ligand told apart by residue number or only by insertion code, three file layouts (END, a single MODEL/ENDMDL bracket without END, no closing record), ligand in its own or in the protein chain. Round 5: the same --ligand path set up twice with different MOL2 content (real setup_molecule, real files); every atom looked up in the naming scheme under its own residue (C09 harness).",
     note="Trusted: z3 (UF + linear real arithmetic), exact reals, atom stand-ins expose exactly the attributes equilibrate reads. Graphs have at most four atoms. Known finding: the transfer is by atom name over every HETATM residue (known_findings.json).",
     technique="symbolic execution of real code with an uninterpreted electronegativity (symx) + SMT verdict per path; table lemma",
     design="DESIGN.md section 3 C16",
